@@ -245,7 +245,8 @@ def mov(dst, src):
 @isa.pattern("reg", "ADDI32(reg, reg)", size=4, cycles=1, energy=1)
 def pattern_addi32(context, tree, c0, c1):
     d = context.new_reg(MipsRegister)
-    context.emit(Add(d, c1, c0))
+    # addu: IR additions wrap around, add would trap on signed overflow
+    context.emit(Addu(d, c0, c1))
     return d
 
 
@@ -259,14 +260,15 @@ def pattern_addu32(context, tree, c0, c1):
 @isa.pattern("reg", "SUBI32(reg, reg)", size=4, cycles=1, energy=1)
 def pattern_subi32(context, tree, c0, c1):
     d = context.new_reg(MipsRegister)
-    context.emit(Sub(d, c1, c0))
+    # subu: no overflow trap; the result is c0 - c1
+    context.emit(Subu(d, c0, c1))
     return d
 
 
 @isa.pattern("reg", "SUBU32(reg, reg)", size=4, cycles=1, energy=1)
 def pattern_subu32(context, tree, c0, c1):
     d = context.new_reg(MipsRegister)
-    context.emit(Subu(d, c1, c0))
+    context.emit(Subu(d, c0, c1))
     return d
 
 
